@@ -27,7 +27,9 @@ type wsView struct {
 	explicitArg map[uint64]bool // explicit IDs of synced argument rows
 	maxID       uint64          // highest ID stored or reserved so far
 	maxGen      uint64          // highest ID the generator handed out so far (the live generator is above it)
-	single      bool
+	single      bool            // a record sits at the singleton's registry ID
+	singleID    uint64          // that record's ID
+	singleOff   bool            // it is deactivated
 	resCtr      uint64
 }
 
@@ -222,6 +224,15 @@ func (g *gen) genEvent(ws uint64, via string) (*eventSpec, []string) {
 					tags = append(tags, "singleton")
 					break
 				}
+				if r.Chance(1, 2) {
+					// the slot is taken: must be refused, whether the record there is active or not
+					ev.Creates = append(ev.Creates, rowSpec{Kind: kSingle, ID: nextRaw()})
+					tags = append(tags, "singleton-create-again")
+					if v.singleOff {
+						tags = append(tags, "singleton-create-again-after-deactivation")
+					}
+					break
+				}
 				fallthrough
 			default:
 				doc := rowSpec{Kind: kDoc, ID: nextRaw()}
@@ -249,12 +260,34 @@ func (g *gen) genEvent(ws uint64, via string) (*eventSpec, []string) {
 		for _, c := range ev.Creates {
 			cudRaw = append(cudRaw, c.ID)
 		}
+		lifecycle := false
+		if v.singleID != 0 && r.Chance(1, 3) {
+			// singleton life cycle: deactivate / reactivate the record that holds the singleton's slot
+			lifecycle = true
+			if v.singleOff {
+				ev.Updates = append(ev.Updates, rowSpec{Kind: kSingle, ID: v.singleID, SetActive: 1})
+				tags = append(tags, "singleton-reactivate")
+			} else {
+				ev.Updates = append(ev.Updates, rowSpec{Kind: kSingle, ID: v.singleID, SetActive: 2})
+				tags = append(tags, "singleton-deactivate")
+			}
+		}
+		if v.singleID != 0 && v.singleOff && !lifecycle && r.Chance(1, 2) && pi < len(pool) {
+			hasSingle := false
+			for _, c := range ev.Creates {
+				hasSingle = hasSingle || c.Kind == kSingle
+			}
+			if !hasSingle {
+				ev.Creates = append(ev.Creates, rowSpec{Kind: kSingle, ID: nextRaw()})
+				tags = append(tags, "singleton-create-again", "singleton-create-again-after-deactivation")
+			}
+		}
 		if len(v.recs) > 0 && r.Chance(3, 10) {
 			n := 1 + r.Intn(2)
 			seen := map[uint64]bool{}
 			for i := 0; i < n; i++ {
 				t := kit.Pick(r, v.recs)
-				if seen[t.id] {
+				if seen[t.id] || (t.id == v.singleID && (lifecycle || v.singleOff)) {
 					continue
 				}
 				seen[t.id] = true
@@ -283,6 +316,10 @@ func (g *gen) genEvent(ws uint64, via string) (*eventSpec, []string) {
 		for i := range ev.Updates {
 			for k := range ev.Updates[i].Refs {
 				ev.Updates[i].Refs[k] = pickRef()
+			}
+			if ev.Updates[i].SetActive != 0 {
+				ev.Updates[i].Refs = [2]uint64{}
+				continue
 			}
 			if ev.Updates[i].Refs[0] == 0 && ev.Updates[i].Refs[1] == 0 {
 				if len(cudRaw) > 0 {
@@ -578,11 +615,16 @@ func observe(v *wsView, ev *eventSpec) []string {
 	}
 	for _, c := range creates {
 		note(c.ID)
-		if c.Kind == kSingle {
-			v.single = true
+		if c.Kind == kSingle && c.ID <= maxRaw+1+511 {
+			v.single, v.singleID, v.singleOff = true, c.ID, false
 		}
 		if c.Kind >= 0 && c.ID < 1<<53 { // larger IDs do not survive a JSON request body
 			v.recs = append(v.recs, known{c.ID, c.Kind})
+		}
+	}
+	for _, u := range ev.Updates {
+		if u.SetActive != 0 && u.ID == v.singleID {
+			v.singleOff = u.SetActive == 2
 		}
 	}
 	if len(o.NewIDs) > 1 {
